@@ -92,7 +92,7 @@ def build_harness():
         return rc == 0, out
 
 
-def build_app_test(app, rewrite=None):
+def build_app_test(app, rewrite=None, race=False):
     """Build a test binary of a package-main app of /repo with /verif's overlay test injected
     (go test -c -overlay; /repo is not touched, go.mod/go.sum are used through copies).
     rewrite = (file name, old text, new text): that source file of the app is overlaid by a copy of the
@@ -117,8 +117,8 @@ def build_app_test(app, rewrite=None):
             repl[os.path.join(REPO, "apps", app, fn)] = cp
         with open(ov, "w") as f:
             json.dump({"Replace": repl}, f)
-        out_bin = os.path.join(HARNESS, "bin", app + ".test")
-        rc, out = sh(["go", "test", "-c", "-vet=off", "-modfile=" + os.path.join(mod, "go.mod"), "-overlay", ov,
+        out_bin = os.path.join(HARNESS, "bin", app + (".race.test" if race else ".test"))
+        rc, out = sh(["go", "test", "-c", "-vet=off"] + (["-race"] if race else []) + ["-modfile=" + os.path.join(mod, "go.mod"), "-overlay", ov,
                       "-o", out_bin, "./apps/" + app], cwd=REPO, env=GOENV, timeout=900)
         return rc == 0, out, out_bin
 
